@@ -71,34 +71,45 @@ class Host(object):
         self.uctx = simloop.Context('n%d-udpcl' % index)
         world.host_of[self.uctx] = self
         simudp.NET.ctx_hosts[self.uctx] = (self.address, 'n%d' % index)
-        self.ucfg = udpcl.config.Config(node_id=self.node_id, mtu_default=udpcl_mtu, bus_service=self.udpcl_service)
+        import io
+        import json
+        udoc = dict(node_id=self.node_id, bus_service=self.udpcl_service, init_listen=[dict(address=self.address, port=PORT)])
+        if udpcl_mtu is not None:
+            udoc['mtu_default'] = int(udpcl_mtu)
+        self.ucfg = udpcl.config.Config()
+        self.ucfg.from_file(io.StringIO(json.dumps({'udpcl': udoc})))
         with simloop.entered(self.uctx):
             self.udpcl = uagent.Agent(self.ucfg)
-            self.udpcl.listen(self.address, PORT, {})
         # the BTP-U agent process of the node, on the one Ethernet segment all nodes share
         self.btpu_service = 'org.verif.n%d.btpu' % index
         self.ectx = simloop.Context('n%d-btpu' % index)
         world.host_of[self.ectx] = self
         self.mac = bytes([2, 0, 0, 0, 0, index])
         simether.NET.add_host(self.ectx, 'n%d' % index, {'eth0': self.mac})
-        self.ecfg = btpu.config.Config(node_id=self.node_id, mtu_default=btpu_mtu, bus_service=self.btpu_service)
+        edoc = dict(node_id=self.node_id, bus_service=self.btpu_service, init_listen=[dict(ifname='eth0')])
+        if btpu_mtu is not None:
+            edoc['mtu_default'] = int(btpu_mtu)
+        self.ecfg = btpu.config.Config()
+        self.ecfg.from_file(io.StringIO(json.dumps({'btpu': edoc})))
         with simloop.entered(self.ectx):
             self.btpu = bagent.Agent(self.ecfg)
-            self.btpu.listen('eth0', {})
-        cfg = bp.config.Config(node_id=self.node_id, bus_service=self.bp_service)
-        for pat, action in rx_routes:
-            cfg.rx_route_table.append(bp.config.RxRouteItem(eid_pattern=re.compile(pat), action=action))
+        tx_table = []
         for route in routes:
             pat, nxt = route[0], route[1]
             cl_type = route[2] if len(route) > 2 else 'tcpcl'
             mtu = route[3] if len(route) > 3 else None
-            raw = dict(address='10.0.0.%d' % nxt, port=PORT)
-            if cl_type == 'tcpcl':
-                raw['next_nodeid'] = 'dtn://n%d/' % nxt
+            # (a route entry of the configuration file is handed to the adaptor as it is)
+            entry = dict(eid_pattern=pat, next_nodeid='dtn://n%d/' % nxt, cl_type=cl_type, address='10.0.0.%d' % nxt, port=PORT)
             if cl_type == 'btpu':
-                raw = dict(address='02:00:00:00:00:%02x' % nxt, local_if='eth0')
-            cfg.tx_route_table.append(bp.config.TxRouteItem(
-                eid_pattern=re.compile(pat), next_nodeid='dtn://n%d/' % nxt, cl_type=cl_type, mtu=mtu, raw_config=raw))
+                entry.update(address='02:00:00:00:00:%02x' % nxt, local_if='eth0')
+                del entry['port']
+            if mtu is not None:
+                entry['mtu'] = int(mtu)
+            tx_table.append(entry)
+        bdoc = dict(node_id=self.node_id, bus_service=self.bp_service, tx_route_table=tx_table,
+                    rx_route_table=[dict(eid_pattern=pat, action=action) for pat, action in rx_routes])
+        cfg = bp.config.Config()
+        cfg.from_file(io.StringIO(json.dumps({'bp': bdoc})))
         self.bcfg = cfg
         with simloop.entered(self.bctx):
             self.bp = bp.agent.Agent(cfg)
